@@ -1,10 +1,7 @@
 (* C07 Namespace and subpath structure cannot be forged or climb upwards *)
 Load "coq/props/Hdr".
 From PM Require Import Segs C07.
-Lemma src_rt : rt_ok cfg. Proof. apply conds_rt_ok. vm_compute. reflexivity. Qed.
-Lemma src_tbl : tbl_ok cfg. Proof. apply conds_tbl_ok. vm_compute. reflexivity. Qed.
-Lemma src_cfg_ok : cfg_ok cfg. Proof. exact (rt_cfg _ src_rt). Qed.
-Ltac sc := sidecond_with src_rt src_tbl.
+Lemma src_cfg_ok : cfg_ok cfg. Proof. sc. Qed.
 Theorem C07_generic_purl : forall s t p, parse cfg G s = Ok (t, p) ->
   exists r, WFr cfg r /\ s = asm r
    /\ p_ns p = join c_slash (map pdecode (raw_ns_pieces r)) /\ Forall good_ns_seg (map pdecode (raw_ns_pieces r))
